@@ -452,7 +452,11 @@ def r_prov(ctx) -> RuleResult:
                              f"V2000: {why}", line=getattr(ev.node, "lineno", None)))
     # ---- V3000
     fi, I, rec, bonds = analyse_reader(ctx, "V3000")
-    common = common_labels(I, rec, bonds)
+    common = set(common_labels(I, rec, bonds) or set())
+    # the test for the line prefix tells a connection-table line from a header line; it selects no field
+    sm_ = splice_model(ctx)
+    if sm_ is not None:
+        common |= {"@sw:" + p_ for p_ in sm_["prefixes"]} | {"@has:" + p_ for p_ in sm_["prefixes"]}
     for ev in _uniq_events(I.events, "store"):
         fl = set(ev.flags) - (common or set())
         kws = _labels(fl, "@has:") | _labels(fl, "@sw:") | _labels(fl, "@eq:")
@@ -462,7 +466,11 @@ def r_prov(ctx) -> RuleResult:
             why = f"tokens {sorted(idx)} {sorted(kws)} -> `{ev.key}` (allowed: the type token, index 3)"
         else:
             want = KW_OF[ev.key]
-            ok = all(want in k for k in kws) and idx <= {"3"} and (bool(kws) or bool(idx))
+            odd = [k for k in kws if not any(w_ in k for w_ in KW_OF.values())]
+            if odd:
+                raise AnalysisError(f"R-PROV: V3000: `{short(ev.node, 60)}` stores `{ev.key}` under a test on {odd[:2]} that is not a keyword test this analysis reads")
+            from_file = any(x.startswith(("@idx", "@col", "@part", "@has:", "@sw:", "@eq:", "@line", "@row")) for x in fl)
+            ok = all(want in k for k in kws) and idx <= {"3"} and (bool(kws) or bool(idx) or not from_file)
             if ev.key != "mass" and idx:
                 ok = False
             why = f"tokens selected by {sorted(kws)} / positions {sorted(idx)} -> `{ev.key}` (allowed: {want}=… tokens" + ("; type token for D/T)" if ev.key == "mass" else ")")
@@ -696,11 +704,39 @@ def r_cols(ctx) -> RuleResult:
     if brec is None or brec.kind != "rec":
         raise AnalysisError("R-COLS: cannot see V2000 bond records")
     got = {c[1:-1] for c in _labels(taint(brec.fields.get("bond_type")), "@col")}
+    got_ends = {c[1:-1] for c in _labels(bonds.keyt, "@col")}
+    if not got and not got_ends:
+        # no column subscripts at all: are the fields taken out of the line by a pattern?
+        dec = block_decoder(ctx, "V2000", 1)
+        pats = []
+        for f_ in ([dec] + [ctx.cg.funcs[q] for q in ctx.cg.closure([dec.fq])]) if dec is not None else []:
+            for n_ in own_walk(f_.node):
+                if isinstance(n_, ast.Call) and isinstance(n_.func, ast.Attribute) and n_.func.attr in ("match", "fullmatch", "search") and n_.args:
+                    p_ = regex_of(ctx, f_, n_.args[0]) if norm(n_.func.value) == "re" else regex_of(ctx, f_, n_.func.value)
+                    if p_ is not None:
+                        pats.append((f_, n_, p_, n_.func.attr))
+        if len(pats) != 1:
+            raise AnalysisError("R-COLS: V2000 bond fields are neither read by column subscripts nor by one constant pattern")
+        f_, n_, p_, how = pats[0]
+        cols_ = regex_group_columns(p_) if how != "search" else None
+        want_ = [V2000_BOND["111"], V2000_BOND["222"], V2000_BOND["ttt"]]
+        ok = cols_ is not None and cols_[:3] == [tuple(w) for w in want_]
+        res.inst(f_.fq, f"bond line: pattern {p_!r} takes its first three groups from columns {cols_}", "ok" if ok else "fail")
+        if not ok:
+            res.fail(Finding("R-COLS", f_.module.rel, f_.qualname, f"pattern {p_}",
+                             f"the bond fields are taken out of the line by a pattern whose (first) alternative does not cut three groups at the fixed columns 0:3, 3:6, 6:9 (found {cols_}): "
+                             "the fields have no separator, so a number that fills its columns is glued to its neighbour and the line is split at the wrong place", line=n_.lineno))
+        got = {span(V2000_BOND["ttt"])} if ok else got
+        got_ends = {span(V2000_BOND["111"]), span(V2000_BOND["222"])} if ok else got_ends
+        if not ok:
+            clo = [ctx.cg.funcs[q] for q in ctx.cg.closure([fi.fq])]
+            _check_v2000_counts(ctx, fi, res)
+            return res
     ok = got == {span(V2000_BOND["ttt"])}
     res.inst(fi.fq, f"bond line: bond type read from columns {sorted(got)}", "ok" if ok else "fail")
     if not ok:
         res.fail(Finding("R-COLS", fi.module.rel, "_parse_bond_line", f"bond_type <- line[{sorted(got)}]", f"bond type is read from columns {sorted(got)}, the format has it at {span(V2000_BOND['ttt'])}"))
-    got = {c[1:-1] for c in _labels(bonds.keyt, "@col")}
+    got = got_ends
     ok = got == {span(V2000_BOND["111"]), span(V2000_BOND["222"])}
     res.inst(fi.fq, f"bond line: endpoints read from columns {sorted(got)}", "ok" if ok else "fail")
     if not ok:
@@ -1529,6 +1565,41 @@ def _match_pattern(ctx, f, m_expr, subject) -> Optional[str]:
     return pat
 
 
+def regex_group_columns(pat: str):
+    """[(start, end)] of the capturing groups of the pattern's first alternative when every item in front of and inside them
+    has a fixed width (so that the groups sit at fixed columns of the matched text); None otherwise"""
+    import re._parser as sp
+    from re._constants import BRANCH, SUBPATTERN, AT
+    try:
+        tree = sp.parse(pat)
+    except Exception:
+        return None
+    items = list(tree)
+    if len(items) == 1 and items[0][0] is BRANCH:
+        items = list(items[0][1][1][0])
+    out = []
+    off = 0
+
+    def walk(seq, off):
+        for op, av in seq:
+            if op is AT:
+                continue
+            one = sp.SubPattern(tree.state, [(op, av)])
+            lo, hi = one.getwidth()
+            if lo != hi:
+                return None
+            if op is SUBPATTERN and av[0] is not None:
+                inner = walk(list(av[3]), off)
+                if inner is None:
+                    return None
+                out.append((off, off + lo))
+            off += lo
+        return off
+    if walk(items, 0) is None:
+        return None
+    return sorted(out)
+
+
 def _regex_prefix_length(pat: str):
     """number of characters a match of `pat` covers if that is the same for every match; a description (str) if the pattern
     ends in an open-ended run; None if neither"""
@@ -2254,7 +2325,18 @@ def r_graphbuild(ctx) -> RuleResult:
     has_nattr = any(isinstance(n, ast.Call) and norm(n.func).endswith("set_node_attributes") for n in own_walk(fn)) or nspace in ("values",) or \
         any(atoms in norm(c.args[0]) and (".items()" in norm(c.args[0]) or ".values()" in norm(c.args[0])) for c in node_calls if c.args)
     has_eattr = any(isinstance(n, ast.Call) and norm(n.func).endswith("set_edge_attributes") for n in own_walk(fn)) or \
-        any(".items()" in norm(c.args[0]) for c in edge_calls if c.args)
+        any(".items()" in norm(c.args[0]) for c in edge_calls if c.args) or \
+        any(c.func.attr == "add_edge" and (any(k.arg is None for k in c.keywords) or len(c.args) > 2) for c in edge_calls)
+    if not has_eattr:
+        # positively without data: the bond table's keys only
+        bare = all(c.func.attr == "add_edges_from" and c.args and norm(c.args[0]) in (bonds_p, f"{bonds_p}.keys()", f"list({bonds_p})", f"list({bonds_p}.keys())") for c in edge_calls) \
+            or all(c.func.attr == "add_edge" and len(c.args) == 2 and not c.keywords for c in edge_calls)
+        if not bare:
+            raise AnalysisError(f"R-GRAPHBUILD: cannot see whether `{short(edge_calls[0], 60)}` attaches the bond attributes")
+    if not has_nattr:
+        bare_n = all(c.args and norm(c.args[0]) in (atoms, f"{atoms}.keys()", f"list({atoms})", f"list({atoms}.keys())") for c in node_calls)
+        if not bare_n:
+            raise AnalysisError(f"R-GRAPHBUILD: cannot see whether `{short(node_calls[0], 60)}` attaches the atom attributes")
     res.inst(gfm.fq, "atom and bond attributes are attached", "ok" if has_nattr and has_eattr else "fail")
     if not (has_nattr and has_eattr):
         res.fail(Finding("R-GRAPHBUILD", gfm.module.rel, gfm.qualname, "attribute attachment", "node or edge attributes are no longer attached to the graph", line=fn.lineno))
